@@ -436,9 +436,10 @@ fn models(tier: Tier) -> Vec<(String, Arc<M>, Vec<Plan>)> {
                 m.label(),
                 m,
                 vec![
-                    Plan::Dev { k: 3, depth: 200, default: Arc::new(move |_| nak) },
-                    Plan::Dev { k: 3, depth: 40, default: Arc::new(move |_| ack) },
-                    Plan::Dev { k: 3, depth: 40, default: Arc::new(move |_| rec) },
+                    Plan::Dev { k: 2, depth: 200, default: Arc::new(move |_| nak) },
+                    Plan::Dev { k: 3, depth: 36, default: Arc::new(move |_| nak) },
+                    Plan::Dev { k: 3, depth: 30, default: Arc::new(move |_| ack) },
+                    Plan::Dev { k: 3, depth: 30, default: Arc::new(move |_| rec) },
                 ],
             ));
         }
@@ -449,7 +450,7 @@ fn models(tier: Tier) -> Vec<(String, Arc<M>, Vec<Plan>)> {
 pub fn run(tier: Tier) -> Report {
     let mut rep = Report::new();
     let lim = Limits {
-        wall: Duration::from_secs(if tier.is_quick() { 40 } else { 1500 }),
+        wall: Duration::from_secs(if tier.is_quick() { 40 } else { 600 }),
         ..Default::default()
     };
     for (label, m, plans) in models(tier) {
